@@ -303,6 +303,14 @@ def run(rep):
     agg = {}
     for sw, ch, n, uc in configs(tier):
         ex = explore(harness(L, sw, ch, n, uc), workers=1, timeout_ms=60000)
+        for r in ex.results:
+            if r["status"] == "unsupported":
+                # the code left the modelled numpy fragment: fall back to a concrete probe of this configuration so that an
+                # outright wrong decision is still reported (a replayed fact; it adds nothing to the solver claim)
+                r["status"] = "cex"
+                r["failing"] = ["unsupported by the shim: %s" % r.get("why")]
+                r["cex"] = dict(kind="energy", sw=sw, ch=ch, n=n, uc=uc, bytes=None, thr=None)
+                rep.notes.append("config (sw=%d, ch=%d, n=%d, use_channel=%r) left the numpy shim (%s); probed concretely" % (sw, ch, n, uc, r.get("why")))
         key = "energy[sw=%d,ch=%d]" % (sw, ch)
         a = agg.setdefault(key, Exploration())
         a.results += [dict(r, config=[sw, ch, n, repr(uc)]) for r in ex.results]
